@@ -36,9 +36,17 @@ def _dyadic_row(rng, n, denom_bits):
     return [Fraction(p, D) for p in parts]
 
 
+SMALL_LAWS = [([[4, 4], [4, 4]], 3), ([[6, 2], [4, 2, 2]], 2), ([[7, 1], [4, 4], [4, 4]], 30), ([[4, 4], [4, 2, 2]], "5/2"),
+              ([[5, 3], [6, 2]], 4), ([[4, 2, 2], [4, 2, 2]], 3), ([[6, 1, 1], [4, 4]], 2), ([[4, 4], [4, 4], [4, 4]], 2)]
+
+
 def cases(rng, tier):
     N = 150 if tier == "quick" else 3000
     big = tier == "thorough"
+    # small cases whose complete output law is enumerated by the oracle (several samples drawn at once for several bases)
+    for rows8, n_ in SMALL_LAWS:
+        yield ("weights", {"rows": [[frac(Fraction(x, 8)) for x in r] for r in rows8], "N": frac(Fraction(n_)), "seed": rng.randrange(1 << 30),
+                           "always_oracle": True})
     for _ in range(N):
         L = rng.randint(1, 4)
         rows = []
@@ -130,7 +138,9 @@ class ScriptedChoice:
             raise ValueError("probabilities do not sum to 1 / invalid")
         k = len(self.calls)
         if self.forced is not None and k < len(self.forced):
-            out = [self.forced[k]] * int(size)
+            fk = self.forced[k]
+            out = list(fk) if isinstance(fk, (list, tuple)) else [fk] * int(size)
+            assert len(out) == int(size)
         else:
             support = [i for i in range(n) if p[i] > 0]
             cum = np.cumsum(p)
@@ -282,6 +292,43 @@ def nontrivial_key(kind, payload):
     return hash(_key(payload) + kind)
 
 
+def _exact_law(payload, rows, Nv, limit=6000):
+    """E[weight(map)] over all draws: every possible answer array of every sampler call is enumerated (small cases only).
+    Returns {map: expected sampled weight} or None when the enumeration would exceed `limit` runs."""
+    from qiskit_addon_cutting.qpd import weights as W
+    law, runs = {}, [0]
+
+    def rec(forced, pr):
+        if runs[0] > limit:
+            return False
+        runs[0] += 1
+        sc2 = ScriptedChoice(payload["seed"], forced)
+        old = np.random.choice
+        np.random.choice = sc2
+        try:
+            o2 = W._generate_qpd_weights([np.array([float(x) for x in r]) for r in rows], float(Nv))
+        finally:
+            np.random.choice = old
+        if len(sc2.calls) > len(forced):
+            nxt = sc2.calls[len(forced)]
+            support = [i for i in range(nxt["n"]) if nxt["p"][i] > 0]
+            if len(support) ** nxt["size"] > limit:
+                return False
+            for arr in itertools.product(support, repeat=nxt["size"]):
+                q = pr
+                for i in arr:
+                    q *= float(nxt["p"][i])
+                if not rec(forced + [list(arr)], q):
+                    return False
+            return True
+        for k, v in o2.items():
+            if v[1].name == "SAMPLED":
+                kk = tuple(int(i) for i in k)
+                law[kk] = law.get(kk, 0.0) + pr * float(v[0])
+        return True
+    return law if rec([], 1.0) else None
+
+
 def oracle(kind, payload):
     """The four clauses of C04 checked directly on the real function (joint probabilities recomputed exactly)."""
     if kind != "weights":
@@ -327,7 +374,17 @@ def oracle(kind, payload):
     total = sum(w for w, _ in res.values())
     if abs(total - Nv) > Fraction(1, 10 ** 12) * Nv + Nv * dropped * 2 + Nv * len(joint) * ATOL * 2:
         return f"weights sum to {float(total)} instead of N = {float(Nv)}"
-    # unbiasedness of the tail: P(m) from the conditional tables actually handed to the sampler along each path
+    # unbiasedness of the tail, exactly: the law of the sampled weights over *all* draws (every answer array of every call)
+    if sc.calls and not payload.get("bases") and sum(c["size"] for c in sc.calls) <= 8:
+        law = _exact_law(payload, rows, Nv)
+        if law is not None:
+            for k, p in joint.items():
+                is_exact = k in res and res[k][1] == "EXACT"
+                exp = 0.0 if is_exact else float(Nv * p)
+                got = law.get(k, 0.0)
+                if abs(got - exp) > 1e-9 * max(1.0, float(Nv)):
+                    return f"expected weight of map {k} over all draws is {got}, should be N*p = {exp}"
+    # the same along constant-answer paths (larger cases): P(m) from the conditional tables actually handed to the sampler
     if len(joint) <= 150 and sc.calls:
         L = len(rows)
         law = {}
